@@ -133,8 +133,8 @@ func runC11(tier string) int {
 		})
 	})
 	// AutoVar switch operands.
-	swDone := r.Parallel(uint64(numAutoKinds*4), func(w int, idx uint64) {
-		kind, ctx := int(idx)/4, int(idx)%4
+	swDone := r.Parallel(uint64(numAutoKinds*7), func(w int, idx uint64) {
+		kind, ctx := int(idx)/7, int(idx)%7
 		lf := autoLeaf(kind, 0, 1)
 		lf.Src = lf.AutoSrc
 		sw := model.Stmt{Kind: model.SSwitch, Operand: lf, Cases: []model.Case{
@@ -147,6 +147,25 @@ func runC11(tier string) int {
 			body = []model.Stmt{mcmd("p"), sw, mcmd("z")}
 		case 2:
 			body = []model.Stmt{{Kind: model.SWhile, Cond: mflag("LC"), Body: []model.Stmt{sw, mcmd("z")}}, mcmd("zz")}
+		case 4, 5, 6:
+			// a case body of the AutoVar switch holds another switch: on a var (4), on another AutoVar command (5), or the AutoVar
+			// switch sits in a case of a var switch (6)
+			inner := model.Stmt{Kind: model.SSwitch, Operand: mvar("N1"), Cases: []model.Case{{Val: 5, Body: []model.Stmt{mcmd("i1")}}}}
+			if ctx == 5 {
+				lf2 := autoLeaf((kind+2)%numAutoKinds, 0, 2)
+				if lf2.AutoSrc == `avtxt("hi")` && kind == 4 {
+					lf2 = autoLeaf(0, 0, 2)
+				}
+				lf2.Src = lf2.AutoSrc
+				inner.Operand = lf2
+			}
+			if ctx == 6 {
+				outer := model.Stmt{Kind: model.SSwitch, Operand: mvar("N1"), Cases: []model.Case{{Val: 5, Body: []model.Stmt{sw, mcmd("i1")}}, {Default: true, Body: []model.Stmt{mcmd("i2")}}}}
+				body = []model.Stmt{mcmd("p"), outer, mcmd("z")}
+			} else {
+				sw.Cases[0].Body = []model.Stmt{inner, mcmd("a")}
+				body = []model.Stmt{mcmd("p"), sw, mcmd("z")}
+			}
 		default:
 			// the same command was already used in a condition with other arguments
 			prev := autoLeaf(kind, 2, 7)
@@ -198,7 +217,7 @@ func runC11(tier string) int {
 	r.Assume("command config: fixed var_name, var_name_arg_position 0 and 1, a command without argument list, a constant argument, an inline text argument",
 		"the preamble is an observable command whose text is the statement rendering 'name arg, arg' (C10 checks that rendering rule separately)")
 	return r.Finish(r.Get("evaluations"), r.Get("nontrivial"),
-		"C02's expression trees with 1-2 leaves replaced by AutoVar leaves (7 command kinds incl. arguments containing '%' x 9 comparison forms, rotated for k>=3) x decorations x 14 condition positions (the 14th - a trailing elif with an empty body - in lazy mode: its AutoVar command must still run) x optimize on/off, plus AutoVar switch operands in 4 contexts, plus AutoVar switch / if / while / do...while statements inside poryswitch cases (colon and brace form, selected directly and through '_'); the programs with <= 2 leaves, the switch programs and the poryswitch-wrapped ones also compiled with line markers on, without and with an input path; lockstep exploration (the preamble command, each operand read and each body command are observable events); non-trivial = >= 2 leaves or a switch")
+		"C02's expression trees with 1-2 leaves replaced by AutoVar leaves (7 command kinds incl. arguments containing '%' x 9 comparison forms, rotated for k>=3) x decorations x 14 condition positions (the 14th - a trailing elif with an empty body - in lazy mode: its AutoVar command must still run) x optimize on/off, plus AutoVar switch operands in 7 contexts (incl. switches nested in its cases and the AutoVar switch nested in another switch), plus AutoVar switch / if / while / do...while statements inside poryswitch cases (colon and brace form, selected directly and through '_'); the programs with <= 2 leaves, the switch programs and the poryswitch-wrapped ones also compiled with line markers on, without and with an input path; lockstep exploration (the preamble command, each operand read and each body command are observable events); non-trivial = >= 2 leaves or a switch")
 }
 
 func c11Eval(r *harness.Run, sc *model.Script, copts *comp.Opts, desc string, nontrivial bool) {
